@@ -155,6 +155,7 @@ func checkCmd(args []string) {
 	defer os.RemoveAll(work)
 
 	type unit struct {
+		presolved bool
 		name string
 		ex   *vc.Exec
 		err  error
@@ -223,7 +224,7 @@ func checkCmd(args []string) {
 	{
 		var wg sync.WaitGroup
 		for i, u := range units {
-			if u.ex == nil || u.err != nil {
+			if u.ex == nil || u.err != nil || u.presolved {
 				continue
 			}
 			wg.Add(1)
@@ -235,9 +236,15 @@ func checkCmd(args []string) {
 		}
 		wg.Wait()
 	}
+	{
+		// the lemmas the SMT prelude states as axioms are re-proved on every run
+		pu := &unit{name: "prelude lemmas", presolved: true, pos: filepath.Join(*root, "specs", "prelude_lemmas")}
+		pu.ex = &vc.Exec{P: prog, Out: vc.CheckPreludeLemmas(filepath.Join(*root, "specs", "prelude_lemmas"), timeout)}
+		units = append(units, pu)
+	}
 	if *tier == "thorough" {
 		for i, u := range units {
-			if u.ex == nil || u.err != nil {
+			if u.ex == nil || u.err != nil || u.presolved {
 				continue
 			}
 			vc.CrossCheck(u.ex.Out, filepath.Join(work, fmt.Sprintf("x%02d", i)), 30, 16)
